@@ -12,11 +12,12 @@ from verif.engine import Ob
 tfd = tfp.distributions
 
 LEVEL = "translation_validation"
-BOUNDS = {"distributions": "all 46 exported TFP wrappers, one parameter template each in the valid domain (scalars, or length-2/3 vectors for the multivariate ones); parameters and the value are symbolic around the template shapes",
+BOUNDS = {"distributions": "44 of the 46 exported TFP wrappers (beta_quotient and skellam are outside the claim), one parameter template each in the valid domain (scalars, or length-2/3 vectors for the multivariate ones); parameters and the value are symbolic around the template shapes",
           "operations": "assess, importance(full) weight+score, update(v->v') weight, simulate score vs log_prob of the sampled value, keyword vs positional invocation, sample dtype"}
 ASSUMPTIONS = ["both sides trace the same TFP log_prob code, so special functions (lgamma, bessel, cholesky, ...) are the same uninterpreted symbols on both sides; what is decided is GenJAX's wrapper (summing, kwargs path, implicit-logit wrapper, masks)",
                "TFP samplers that cannot be encoded (rejection loops) are uninterpreted functions of (key, parameters)"]
-OUTSIDE = ["that TFP samplers stay in the support (TFP is the trusted oracle)", "batch/sample shapes beyond the template"]
+TOO_LARGE = {"beta_quotient", "skellam"}  # log_prob is a numerical quadrature: 328 000 jaxpr equations encoded in 270 s, z3 'unknown' after 60 s
+OUTSIDE = ["beta_quotient (log_prob is a 328k-equation numerical quadrature; encoded but not decided by z3 within the budget - stated, not claimed)", "skellam (log_prob = 21 600 equations of Bessel-function recurrences: the abstraction gives a non-reproducing model and exact arithmetic is unknown after 60 s - stated, not claimed)", "that TFP samplers stay in the support (TFP is the trusted oracle)", "batch/sample shapes beyond the template"]
 
 F = lambda *v: jnp.asarray(v[0] if len(v) == 1 else v, jnp.float32)  # noqa: E731
 V = lambda *v: jnp.asarray(v, jnp.float32)  # noqa: E731
@@ -102,7 +103,7 @@ def box(sym, tmpl):
 
 def obligations(tier, seed):
     obs = []
-    exported = [n for n in T if hasattr(genjax, n)]
+    exported = [n for n in T if hasattr(genjax, n) and n not in TOO_LARGE]
     for nm in exported:
         ctor, params, kws, v, v2 = T[nm]
         g = getattr(genjax, nm)
